@@ -691,6 +691,12 @@ func (e *vfCFEnv) respCheckpts(p int, q *wire.MsgGetCFCheckpt) wire.Message {
 		hd = e.lineage(c, p)
 	}
 	m := wire.NewMsgCFCheckpt(q.FilterType, &q.StopHash, r/1000)
+	if e.kind(p) == "SH" {
+		// a correct but shorter list: only the checkpoints up to model height k
+		if lim := e.w.R(e.asg[p-1].K); lim < r {
+			r = lim
+		}
+	}
 	for h := 1000; h <= r; h += 1000 {
 		v := hd[h]
 		_ = m.AddCFHeader(&v)
@@ -698,7 +704,9 @@ func (e *vfCFEnv) respCheckpts(p int, q *wire.MsgGetCFCheckpt) wire.Message {
 	return m
 }
 
-func (e *vfCFEnv) respCFHeaders(p int, q *wire.MsgGetCFHeaders) wire.Message {
+// respCFHeaders: bcast = the request came through queryAllPeers (the "SF" kind
+// answers those with one filter hash too few).
+func (e *vfCFEnv) respCFHeaders(p int, q *wire.MsgGetCFHeaders, bcast bool) wire.Message {
 	if e.kind(p) == "CX" {
 		return nil
 	}
@@ -707,6 +715,11 @@ func (e *vfCFEnv) respCFHeaders(p int, q *wire.MsgGetCFHeaders) wire.Message {
 		return nil
 	}
 	s := int(q.StartHeight)
+	if r-s+1 > wire.MaxCFHeadersPerMsg {
+		// no peer answers (or could encode the answer to) a request for more
+		// headers than one cfheaders message holds
+		return nil
+	}
 	m := wire.NewMsgCFHeaders()
 	m.FilterType = q.FilterType
 	m.StopHash = q.StopHash
@@ -732,6 +745,9 @@ func (e *vfCFEnv) respCFHeaders(p int, q *wire.MsgGetCFHeaders) wire.Message {
 			fh = e.fakeHash(c, p)
 		}
 		m.FilterHashes = append(m.FilterHashes, &fh)
+	}
+	if bcast && e.kind(p) == "SF" {
+		m.FilterHashes = m.FilterHashes[:len(m.FilterHashes)-1]
 	}
 	return m
 }
@@ -780,12 +796,25 @@ func (e *vfCFEnv) queryAllPeers(queryMsg wire.Message,
 	e.ev <- vfCFEvent{kind: "gate", gate: g, msg: queryMsg}
 	select {
 	case rel := <-e.rel:
+		// as ChainService.queryAllPeers (query.go) does: one quit channel per
+		// peer; once the callback closed it, further messages of that peer
+		// are not handed to the callback any more
 		quit := make(chan struct{})
+		peerQuits := map[int]chan struct{}{}
 		for _, r := range rel.resps {
 			if r.msg == nil {
 				continue
 			}
-			checkResponse(e.sps[r.peer-1], r.msg, quit, make(chan struct{}))
+			pq, ok := peerQuits[r.peer]
+			if !ok {
+				pq = make(chan struct{})
+				peerQuits[r.peer] = pq
+			}
+			select {
+			case <-pq:
+			default:
+				checkResponse(e.sps[r.peer-1], r.msg, quit, pq)
+			}
 		}
 	case <-e.done:
 	}
@@ -1087,7 +1116,7 @@ func (e *vfCFEnv) responses(rs []int, msg wire.Message) []vfCFResp {
 		case *wire.MsgGetCFCheckpt:
 			m = e.respCheckpts(p, q)
 		case *wire.MsgGetCFHeaders:
-			m = e.respCFHeaders(p, q)
+			m = e.respCFHeaders(p, q, true)
 		case *wire.MsgGetCFilters:
 			m = e.respFilter(p, q)
 		}
@@ -1242,7 +1271,25 @@ func (e *vfCFEnv) exec(a vfCFAct) (string, error) {
 		if err := want("q_cp"); err != nil {
 			return "", err
 		}
-		e.rel <- vfCFRel{resps: e.responses(a.Rs, e.gate.msg)}
+		resps := e.responses(a.Rs, e.gate.msg)
+		if a.P != 0 {
+			// the answer of peer a.P is preceded by a cfcheckpt message of that
+			// peer that belongs to an older request (the block below the tip)
+			q := e.gate.msg.(*wire.MsgGetCFCheckpt)
+			if c, r, ok := e.locate(q.StopHash); ok && r > 0 {
+				old := *q
+				old.StopHash = c.hash[r-1]
+				var with []vfCFResp
+				for _, x := range resps {
+					if x.peer == a.P {
+						with = append(with, vfCFResp{peer: a.P, msg: e.respCheckpts(a.P, &old)})
+					}
+					with = append(with, x)
+				}
+				resps = with
+			}
+		}
+		e.rel <- vfCFRel{resps: resps}
 		ev, err := e.waitEvent()
 		if err != nil {
 			return "", err
@@ -1404,7 +1451,7 @@ func (e *vfCFEnv) exec(a vfCFAct) (string, error) {
 		if req == nil {
 			return "", fmt.Errorf("no request for interval %d", a.J)
 		}
-		resp := e.respCFHeaders(a.P, req.Req.(*wire.MsgGetCFHeaders))
+		resp := e.respCFHeaders(a.P, req.Req.(*wire.MsgGetCFHeaders), false)
 		if resp == nil {
 			return "", fmt.Errorf("peer %d has no answer for interval %d", a.P, a.J)
 		}
@@ -1791,7 +1838,7 @@ func vfCFRunOnce(w *vfCFWorld, p vfCFPathIn) (out vfCFPathOut) {
 func vfCFRunPath(w *vfCFWorld, p vfCFPathIn) vfCFPathOut {
 	choice := false
 	for _, s := range p.Steps {
-		if s.Act.P != 0 && strings.HasPrefix(s.Act.Op, "U") {
+		if s.Act.P != 0 && (strings.HasPrefix(s.Act.Op, "U") || strings.HasPrefix(s.Act.Op, "R")) {
 			choice = true
 		}
 	}
